@@ -26,6 +26,7 @@ Line protocol shared by drv_C02 and drv_C05: replays the harness' operations on 
   mark / reset / drop            -> nothing: push the current state / restore the last marked state (kept) / pop it
                                     (exhaustive enumeration: try every move from one state)
   h_swap / h_insert / h_shift / h_reorder   (hook H3 history) -> nothing when accepted, `rejected …` otherwise
+  h_window …                     -> nothing (hook H3b: report of a reordering window, used by C05 only)
 -/
 namespace Driver.DetPlaceIO
 open ColoVerif ColoVerif.DetPlace Driver
@@ -145,6 +146,7 @@ def stepLine (d : DS) (ws : List String) : DS × List String :=
         | "h_insert", [c, r, p] => doStep d s "insert" (.insert c r p) false
         | "h_shift", _ => doStep d s "shift" (.shift (pairs a)) false
         | "h_reorder", _ => doStep d s "reorder" (parseReorder a) false
+        | "h_window", _ => (d, [])   -- hook H3b: report of a reordering window (no move)
         | "unplace", [c] => ({ d with st := some (s.unplace c) }, ["unplace ok"])
         | "place", [c, r, p, x] =>
           match s.place c r p x with
